@@ -479,6 +479,9 @@ not have any effect."""
         n = len(lits)
         if value < 0 or value > n:
             return
+        # a private copy: literals are flipped in place (and the caller
+        # may have given a tuple or a range)
+        lits = list(lits)
         for flips in combinations(range(n), value):
             for i in flips:
                 lits[i] *= -1
